@@ -86,7 +86,9 @@ def build(classes, order, version="1.6"):
 
 
 def observe(built, log, ci):
+    first = built[ci]("first", None)          # an earlier instance of the same class must not matter
     obj = built[ci]("x", None)
+    assert first is not obj
     out = {}
     for action, r in obj.route_map.items():
         e = {}
